@@ -50,7 +50,7 @@ def consts_of(c):
     return dict(NN=c["NN"], MaxNow=c.get("MaxNow", 0))
 
 
-def note_check(prop, tier, replay, wanted_inv, wanted_or, rule_extra=""):
+def note_check(prop, tier, replay, wanted_inv, wanted_or, rule_extra="", extra=None):
     run = Run(prop, tier, "fault_enumeration" if prop == "C19" else "model_checking")
     exe = build("h_l2")
     if replay:
@@ -70,6 +70,11 @@ def note_check(prop, tier, replay, wanted_inv, wanted_or, rule_extra=""):
                         "SC interleavings; TLC, SANY, gcc -fsanitize=thread instrumentation, /verif/rt trusted"]
     cfgs = [(name, dict(note_conf(c), _c=c)) for name, (props, t, c) in CONF.items() if prop in props and (t == "q" or tier == "thorough")]
     run_family(run, exe, "Note", prop, cfgs, lambda conf: consts_of(conf["_c"]), wanted_inv, wanted_or)
+    if extra:
+        extra(run, exe)
+    if prop == "C08":
+        # waiters of a note that are cv / mu waiters (nsync_sem_wait_with_cancel_): real mu.c, cv.c, note.c, fine-grained
+        mulib.fine_runs(run, build("h_mu"), prop, tier, dict(os.environ, VERIF_PROP=prop))
     exer = build("h_l2r")
     # (the two configurations that exhibit the recorded findings are explored in lock-step only, where the specification's
     #  taint says which window a failure belongs to; under free-running random schedules a hang could not be attributed)
